@@ -2,6 +2,7 @@ package storesim
 
 import (
 	"bytes"
+	"fmt"
 	"testing"
 
 	mavldb "github.com/33cn/chain33/system/store/mavl/db"
@@ -254,6 +255,37 @@ func c03Prove(ctx *simrt.Ctx, w *c01World, op *simrt.Op) *simrt.Violation {
 		}
 		if bad {
 			return ctx.Violate("forged-proof-accepted", "Proof.Verify/value", "Proof.Verify accepts a different value for key %x", key)
+		}
+		// verification is a pure check: the same proof object verifies again
+		pnc = Guard(func() { ok = structProof.Verify(key, value, root) && bytes.Equal(structProof.Root(), root) })
+		if pnc != nil {
+			return ctx.Violate("verify-panic", "Proof.Verify/honest-again", "second Proof.Verify(key=%x) panicked: %v", key, pnc)
+		}
+		if !ok {
+			return ctx.Violate("honest-proof-rejected", "Proof.Verify/second-verification/"+cfgs, "Proof.Verify accepted the tree's own proof for key %x once and rejects the same proof object the second time (path length %d)", key, pathLen)
+		}
+	}
+	// a decoded proof is verified as often as its holder likes
+	{
+		leaf := types.LeafNode{Key: key, Value: value, Height: 0, Size: 1}
+		var rp *mavldb.Proof
+		var rerr error
+		pnc := Guard(func() { rp, rerr = mavldb.ReadProof(root, leaf.Hash(), proof) })
+		if pnc != nil {
+			return ctx.Violate("verify-panic", "ReadProof/honest", "ReadProof of the store's own proof for key %x panicked: %v", key, pnc)
+		}
+		if rerr == nil && rp != nil {
+			for round := 1; round <= 3; round++ {
+				var ok bool
+				pnc := Guard(func() { ok = rp.Verify(key, value, root) })
+				if pnc != nil {
+					return ctx.Violate("verify-panic", "Proof.Verify/decoded", "Proof.Verify of a decoded proof for key %x panicked in round %d: %v", key, round, pnc)
+				}
+				if !ok {
+					return ctx.Violate("honest-proof-rejected", fmt.Sprintf("Proof.Verify/decoded-round-%d/%s", round, cfgs), "the decoded proof (%s) for key %x value %x root %x is rejected in verification round %d of the same object (path length %d)", apiName, key, value, root, round, pathLen)
+				}
+			}
+			ctx.Probe("decoded_proof_reverified")
 		}
 	}
 
